@@ -5,21 +5,21 @@ import json, os, subprocess
 HERE = os.path.dirname(os.path.dirname(os.path.abspath(__file__)))
 
 CHECKS = {
- "C01": ("generated-input search (proptest, 16 workers) + bounded decision-tree enumeration; oracle: independent flat-stack reference machine, CPython pickletools.dis on a sample",
+ "C01": ("generated-input search (proptest, 16 workers) + bounded decision-tree enumeration, name-table and boundary-word sweeps, 66 000-high scripted programs; oracle: independent flat-stack reference machine, CPython pickletools.dis on a sample",
          "Every safe-mode output explored is replayed through an independent pickletools.dis-equivalent machine; a sample also through CPython itself. Holds on everything explored; absence is not established.", "3 C01"),
  "C02": ("generated-input search weighted to memo>=256 and memo-index mutators at rate 1.0; oracle: reference machine memo rules",
          "GET resolves / PUT fresh / PUT operand not MARK, judged by the reference machine on outputs with hundreds of memo entries and under OffByOne/MemoIndex(safe) at rate 1.0.", "3 C02"),
- "C03": ("generated-input search + bounded decision-tree enumeration; oracle: kind-tracking reference machine",
+ "C03": ("generated-input search + bounded decision-tree enumeration, name-table and boundary-word sweeps; oracle: kind-tracking reference machine",
          "Operand kinds of the typed opcodes listed in the property, computed by a machine written independently of src/; 3-5 step set-ups are reached systematically by the tree enumeration.", "3 C03"),
- "C04": ("generated-input search incl. unsafe mode; oracle: independent opcode lexer with pickletools argument readers, CPython pickletools.genops on a sample",
+ "C04": ("generated-input search incl. unsafe mode + boundary-word sweep behind scripted opcodes; oracle: independent opcode lexer with pickletools argument readers, CPython pickletools.genops on a sample",
          "Every output (safe and unsafe) must decode completely with in-domain arguments and one trailing STOP.", "3 C04"),
- "C05": ("generated-input search; oracle: introduced-in-protocol column of the independent opcode table, PROTO header rules, 7-bit check for P0",
+ "C05": ("generated-input search + boundary-word sweep + 64 000-opcode programs; oracle: introduced-in-protocol column of the independent opcode table, PROTO header rules, 7-bit check for P0",
          "Every decoded opcode of every safe output, including the collapse tail.", "3 C05"),
  "C06": ("generated-input search incl. unsafe rewrites; oracle: FRAME position/uniqueness/length re-derived from the final bytes",
          "Frame length is recomputed from the decoded final output for framed outputs of many shapes, including outputs rewritten by the type-confusion mutator.", "3 C06"),
  "C07": ("repeat-and-compare (metamorphic: same input => same bytes) across instances, 16 concurrent threads, fresh processes (different working directories and environments) and CLI batch worker counts",
          "Digest equality across execution contexts; interleavings are sampled by stress, not enumerated.", "3 C07"),
- "C08": ("model-based stateful testing: generated call sequences on one generator vs a fresh generator per call",
+ "C08": ("model-based stateful testing: generated call sequences (incl. re-configuration, very large first pickles, histories of up to 70 000 calls) on one generator vs a fresh generator per call",
          "Sequences of generate / generate_from_arbitrary / reset of length 1..8; every call's result must equal a fresh generator's.", "3 C08"),
  "C09": ("generated-input search + exhaustive enumeration of all byte strings of length <= 2 + staged search over scripted repeated-word programs (towers) scaled to thousands of repetitions, in child processes with 2 MiB stacks, optimised and unoptimised builds",
          "Ok + non-empty, no panic/abort/stack overflow, emission fuel never exhausted; silent spins would only be reported as inconclusive.", "3 C09"),
@@ -35,9 +35,9 @@ CHECKS = {
          "live(before Generator::new) == live(after drop) for every explored case after one warm-up generation; a batch process's peak memory does not grow with the number of samples.", "3 C14"),
  "C15": ("direct calls of every mutator on harness-built entropy sources (exhaustive for <=2 bytes, special f64 patterns) + spy mutators inside full generations, each re-run with the mutators unwrapped (byte equality)",
          "Rate 0 never fires / never rewrites; rate 1 fires whenever applicable, first applicable mutator wins.", "3 C15"),
- "C16": ("generated-input search over values x entropy states per mutator; oracle: independent restatement of each documented transformation",
+ "C16": ("generated-input search over values x entropy states per mutator, plus the same contract observed inside whole generations; oracle: independent restatement of each documented transformation",
          "Checked on every Some/true result, including boundary values, empty/non-ASCII inputs and exhausted entropy.", "3 C16"),
- "C17": ("generated-input search + bounded decision-tree enumeration with the per-emission trace hook; oracle: step-by-step comparison with the reference machine",
+ "C17": ("generated-input search + bounded decision-tree enumeration, name-table and boundary-word sweeps with the per-emission trace hook; oracle: step-by-step comparison with the reference machine",
          "Depth, MARK positions, kind compatibility and memo after every emission of every explored pickle.", "3 C17"),
  "C18": ("grid x exhaustive short byte strings x sampled PRNG states; oracle: range predicates and fallback determinism",
          "choose_index/gen_range/gen_ascii_char/gen_bytes contracts on both sources incl. exhausted input.", "3 C18"),
